@@ -265,7 +265,7 @@ func callChain(fn string, c M, env termx.Env) (got []byte, pure bool, extra map[
 	pure = true
 	switch fn {
 	case "leaf":
-		h := ophosttypes.GenerateWithdrawalHash(env["bridge"].(uint64), env["seq"].(uint64), env["from"].(string), env["to"].(string), env["denom"].(string), env["amt"].(uint64))
+		h := flex(ophosttypes.GenerateWithdrawalHash, env["bridge"].(uint64), env["seq"].(uint64), env["from"].(string), env["to"].(string), env["denom"].(string), env["amt"].(uint64))
 		ind := fmtx.Leaf(env["bridge"].(uint64), env["seq"].(uint64), env["from"].(string), env["to"].(string), env["denom"].(string), env["amt"].(uint64))
 		if !bytes.Equal(ind, termx.Eval(absx.Map(c["term"]), env)) {
 			extra["evaluator"] = "harness fmtx.Leaf differs from Formats!Leaf"
@@ -274,7 +274,7 @@ func callChain(fn string, c M, env termx.Env) (got []byte, pure bool, extra map[
 	case "outputRoot":
 		sr, bh := env["storageRoot"].([]byte), env["blockHash"].([]byte)
 		sr0, bh0 := clone(sr), clone(bh)
-		h := ophosttypes.GenerateOutputRoot(env["version"].(byte), sr, bh)
+		h := flex(ophosttypes.GenerateOutputRoot, env["version"].(byte), sr, bh)
 		if !bytes.Equal(fmtx.OutputRoot(env["version"].(byte), sr0, bh0), termx.Eval(absx.Map(c["term"]), env)) {
 			extra["evaluator"] = "harness fmtx.OutputRoot differs from Formats!OutputRoot"
 		}
@@ -294,9 +294,9 @@ func callChain(fn string, c M, env termx.Env) (got []byte, pure bool, extra map[
 	case "node":
 		a, b := env["a"].([]byte), env["b"].([]byte)
 		a0, b0 := clone(a), clone(b)
-		h := ophosttypes.GenerateNodeHash(a, b)
-		h2 := ophosttypes.GenerateNodeHash(b, a)
-		if h != h2 {
+		h := flex(ophosttypes.GenerateNodeHash, a, b)
+		h2 := flex(ophosttypes.GenerateNodeHash, b, a)
+		if !bytes.Equal(h, h2) {
 			extra["commutes"] = "GenerateNodeHash(a,b) != GenerateNodeHash(b,a)"
 		}
 		return h[:], bytes.Equal(a, a0) && bytes.Equal(b, b0), extra
@@ -310,11 +310,16 @@ func callChain(fn string, c M, env termx.Env) (got []byte, pure bool, extra map[
 			proofs = append(proofs, p)
 			before = append(before, clone(p))
 		}
-		h := ophosttypes.GenerateRootHashFromProofs(leaf, proofs)
+		leaf0 := leaf
+		h := flex(ophosttypes.GenerateRootHashFromProofs, &leaf, proofs)
 		for i := range proofs {
 			if !bytes.Equal(proofs[i], before[i]) {
 				pure = false
 			}
+		}
+		if leaf != leaf0 { // (only possible when the function takes the leaf as a slice)
+			pure = false
+			leaf = leaf0
 		}
 		if !bytes.Equal(fmtx.RootFromProof(leaf[:], before), termx.Eval(absx.Map(c["term"]), env)) {
 			extra["evaluator"] = "harness fmtx.RootFromProof differs from Formats!RootFromProof"
@@ -332,7 +337,7 @@ func callChain(fn string, c M, env termx.Env) (got []byte, pure bool, extra map[
 		}
 		var leaf [32]byte
 		copy(leaf[:], leaves[i-1])
-		h := ophosttypes.GenerateRootHashFromProofs(leaf, proof)
+		h := flex(ophosttypes.GenerateRootHashFromProofs, &leaf, proof)
 		// the harness's own tree builder must implement the same published rule
 		root := termx.Eval(absx.Map(c["term"]), env)
 		if !bytes.Equal(fmtx.TreeRoot(leaves), root) {
@@ -449,7 +454,11 @@ func checkLayout(rep *Report, l M, rng *rand.Rand, hc *handlerCtx) {
 	proofs, _ := build()
 	var leafArr [32]byte
 	copy(leafArr[:], leaf)
-	got := ophosttypes.GenerateRootHashFromProofs(leafArr, proofs)
+	got := flex(ophosttypes.GenerateRootHashFromProofs, &leafArr, proofs)
+	if !bytes.Equal(leafArr[:], leaf) {
+		rep.add(Mismatch{Kind: "pure", Fn: "GenerateRootHashFromProofs", Detail: M{"layout": key, "what": "the leaf passed by the caller was overwritten"}})
+		copy(leafArr[:], leaf)
+	}
 	rep.Evaluations++
 	rep.ByFn["layout"]++
 	if !bytes.Equal(got[:], expected) {
